@@ -28,6 +28,7 @@ CONSTANTS
   Funds0 = "1000000"
   Actions <- MCActions
   GovEventsC <- GovC
+  Prefix <- PrefixC
   NativeAmounts = {"1000000"}
   MaxDepth = 7
   MaxBlocks = 4
